@@ -45,6 +45,12 @@ def generate(gen, tier):
         outer = gen.tree(depth=rng.choice([1, 2, 2]), width=3, weights=[3, 3, 3, 2, 2, 2, 1, 0, 2, 1, 3])
         inner = gen.tree(depth=rng.choice([1, 2]), width=3, weights=[3, 3, 3, 2, 2, 2, 1, 0, 2, 1, 3])
         outer, inner = only_registered(gen, outer, ns), only_registered(gen, inner, ns)
+        if ns in ('a', 'b') and rng.random() < 0.35:
+            # outer without custom nodes (its treespec records no namespace), inner with a node that is
+            # registered in the namespace only
+            outer = gen.tree(depth=rng.choice([1, 2]), width=3, kinds=['T', 'l', 'D', 'O', 'Q', 'L'])
+            special = [A('U'), 2 if ns == 'a' else 4, gen.md(), A('ok'), *[gen.leaf(0) for _ in range(rng.choice([1, 2]))]]
+            inner = rng.choice([special, [A('T'), special, gen.leaf(0)], [A('l'), special]])
         cls = rng.choices(['ok', 'wrong-count', 'nil-mismatch', 'ns-mismatch'], weights=[80, 10, 5, 5])[0]
         cfg_i = cfg
         if cls == 'nil-mismatch':
